@@ -86,6 +86,7 @@ func runShapes(m *mp.Model, r *rng.R, n int, out *res.Result) error {
 			req = sx.L(sx.A("rect"), sx.R(x), sx.R(y), sx.R(w), sx.R(h), optX(hasRx, rx), optX(hasRy, ry))
 			if hasRx && hasRy && rx != ry {
 				key = "rect-rx-and-ry"
+				out.Hit("shape:rect-rx-and-ry")
 			}
 			out.Hit("shape:rect")
 		case 1, 2: // circle, ellipse
@@ -105,7 +106,6 @@ func runShapes(m *mp.Model, r *rng.R, n int, out *res.Result) error {
 				out.Hit("shape:ellipse")
 			}
 			req = sx.L(sx.A("ellipse"), sx.R(cx), sx.R(cy), sx.R(rx), sx.R(ry))
-			key = "ellipse-bezier-constant"
 		case 3: // line
 			at, a := lenAttr(cr, dy(cr, 200, 4), vpW, true)
 			bt, b := lenAttr(cr, dy(cr, 200, 4), vpH, true)
@@ -185,7 +185,7 @@ func runShapes(m *mp.Model, r *rng.R, n int, out *res.Result) error {
 			if mm := walk(impl, ms.ops, cmpMode{exact: true}); mm != nil {
 				out.Add(res.Finding{Kind: "corr", Op: "corr:shape", Input: src, Impl: opsString(impl), Model: mx.String(), Reason: mm.String(), Seed: caseSeed})
 			}
-			if mm := walk(impl, ss.ops, cmpMode{judge: true, closeByLine: true, lineTol: 1e-6, cubicTol: 1e-6, arcTol: 1e-3}); mm != nil {
+			if mm := walk(impl, ss.ops, cmpMode{judge: true, closeByLine: true, lineTol: 1e-6, cubicTol: 1e-6, arcTol: shapeArcTol}); mm != nil {
 				out.Add(res.Finding{Kind: "judge", Op: "judge:shape", Input: src, Impl: opsString(impl), Model: sxp.String(), Reason: mm.String(), Seed: caseSeed})
 			}
 			continue
@@ -206,17 +206,12 @@ func runShapes(m *mp.Model, r *rng.R, n int, out *res.Result) error {
 		if mm := walk(impl, mops, cmpMode{exact: true, cubicTol: tol20}); mm != nil {
 			out.Add(res.Finding{Kind: "corr", Op: "corr:shape", Input: src, Impl: opsString(impl), Model: mx.String(), Reason: mm.String(), Seed: caseSeed})
 		}
-		if mm := walk(impl, sops, cmpMode{judge: true, closeByLine: true, lineTol: 1e-6, cubicTol: 1e-6, arcTol: 1e-3}); mm != nil {
-			k := ""
-			switch {
-			case kind == 0 && mm.maxDev > 1e-3 && mm.maxDev < 5e-2:
-				k = "rect-corner-control-point"
-			case key == "rect-rx-and-ry" && mm.maxDev == 0:
-				k = key
-			case key == "ellipse-bezier-constant" && mm.maxDev > 1e-3 && mm.maxDev < 1e-2:
-				k = key
-			}
-			out.Add(res.Finding{Kind: "judge", Op: "judge:shape", Input: src, Impl: opsString(impl), Model: sxp.String(), Reason: mm.String(), Key: k, Seed: caseSeed})
+		dev := &devEllipse
+		if kind == 0 {
+			dev = &devRect
+		}
+		if mm := walk(impl, sops, cmpMode{judge: true, closeByLine: true, lineTol: 1e-6, cubicTol: 1e-6, arcTol: shapeArcTol, devMax: dev}); mm != nil {
+			out.Add(res.Finding{Kind: "judge", Op: "judge:shape", Input: src, Impl: opsString(impl), Model: sxp.String(), Reason: mm.String(), Key: key, Seed: caseSeed})
 		} else {
 			out.Hit("shape:judge-ok")
 		}
@@ -275,6 +270,17 @@ func runViewbox(m *mp.Model, r *rng.R, n int, out *res.Result) error {
 		} else {
 			attrs += fmt.Sprintf(` preserveAspectRatio="%s"`, par)
 		}
+		// malformed preserveAspectRatio values (the attribute grammar is violated): no crash, model-equal
+		malformed := cr.P(1, 10)
+		if malformed {
+			par = rng.Pick(cr, "x", "", "xMid", "xMidYMid  slice", "abcdefgh", "XMIDYMID", "none  slice", "slice", "xMidYMi", "xMidYMidd", " xMidYMid")
+			attrs = fmt.Sprintf(` viewBox="%s" preserveAspectRatio="%s"`, vbT, par)
+			out.Hit("viewbox:malformed-preserveAspectRatio")
+		}
+		parSent := par
+		if !strings.Contains(attrs, "preserveAspectRatio") {
+			parSent = "xMidYMid" // nodeAttributes.aspectRatio: the default when the attribute is absent
+		}
 		nested := cr.P(1, 3)
 		var src string
 		var nx, ny float64
@@ -321,7 +327,11 @@ func runViewbox(m *mp.Model, r *rng.R, n int, out *res.Result) error {
 			continue
 		}
 		got := ts[idx].F
-		ans, err := m.Ask(sx.L(sx.A("viewbox"), sx.R(W), sx.R(H), sx.L(sx.R(vx), sx.R(vy), sx.R(vw), sx.R(vh)), sx.A(al.x), sx.A(al.y), sx.B(none), sx.B(slice)))
+		intended := sx.L(sx.A(al.x), sx.A(al.y), sx.B(none), sx.B(slice))
+		if malformed {
+			intended = sx.A("na")
+		}
+		ans, err := m.Ask(sx.L(sx.A("viewboxs"), sx.R(W), sx.R(H), sx.L(sx.R(vx), sx.R(vy), sx.R(vw), sx.R(vh)), sx.S(parSent), intended))
 		if err != nil {
 			return err
 		}
@@ -352,7 +362,9 @@ func runViewbox(m *mp.Model, r *rng.R, n int, out *res.Result) error {
 		if why := cmp(ans.Xs[1]); why != "" {
 			out.Add(res.Finding{Kind: "corr", Op: "corr:viewbox", Input: src, Impl: fmt.Sprint(got), Model: ans.Xs[1].String(), Reason: why, Seed: caseSeed})
 		}
-		if why := cmp(ans.Xs[2]); why != "" {
+		if malformed {
+			out.Hit("viewbox:malformed-no-crash")
+		} else if why := cmp(ans.Xs[2]); why != "" {
 			out.Add(res.Finding{Kind: "judge", Op: "judge:viewbox", Input: src, Impl: fmt.Sprint(got), Model: ans.Xs[2].String(), Reason: "viewBox is not mapped onto the viewport as specified: " + why, Seed: caseSeed})
 		} else {
 			out.Hit("viewbox:judge-ok")
@@ -580,13 +592,14 @@ func ChildMain() {
 		case d.err != nil:
 			fmt.Fprintf(w, "err %s\n", strings.ReplaceAll(d.err.Error(), "\n", " "))
 		default:
-			nr := 0
+			// widths of the rectangles of height 5 (every generated rect), in drawing order
+			fmt.Fprint(w, "ok")
 			for _, e := range d.evs {
-				if e.Op == "Rectangle" && len(e.F) == 4 && e.F[2] == 77 {
-					nr++
+				if e.Op == "Rectangle" && len(e.F) == 4 && e.F[3] == 5 {
+					fmt.Fprintf(w, " %v", e.F[2])
 				}
 			}
-			fmt.Fprintf(w, "ok %d\n", nr)
+			fmt.Fprintln(w)
 		}
 		w.Flush()
 		if err != nil {
@@ -676,9 +689,37 @@ func (c *child) ask(src string) string {
 }
 
 type refCase struct {
-	kind string // marker clip-path mask pattern gradient use
-	mode string // cycle1 cycle2 cycle3 missing
-	src  string
+	kind  string // marker clip-path mask pattern gradient use
+	mode  string // cycle1 cycle2 cycle3 missing
+	src   string
+	model *sx.X // clip-path / mask: the request for WR.C18.drawGuarded
+}
+
+// guardReq builds the (guard (defs …) root) request: definition k draws rect k+3 and references `next(k)`.
+func guardReq(n int, missing, clipFirst, direct bool) *sx.X {
+	node := func(ref, shape int) sx.X {
+		u, sh := sx.L(sx.A("use"), sx.I(ref)), sx.L(sx.A("shape"), sx.I(shape))
+		if clipFirst {
+			return sx.L(sx.A("group"), sx.A("none"), u, sh)
+		}
+		return sx.L(sx.A("group"), sx.A("none"), sh, u)
+	}
+	defs := []sx.X{sx.A("defs")}
+	if !direct {
+		for k := 0; k < n; k++ {
+			nx := (k + 1) % n
+			if missing {
+				nx = 99
+			}
+			defs = append(defs, sx.L(sx.I(k), node(nx, k+3)))
+		}
+	}
+	root := node(0, 77)
+	if direct {
+		root = node(99, 77)
+	}
+	x := sx.L(sx.A("guard"), sx.L(defs...), root)
+	return &x
 }
 
 func genRef(r *rng.R) refCase {
@@ -700,9 +741,9 @@ func genRef(r *rng.R) refCase {
 			fmt.Fprintf(&defs, `<marker id="%s" markerWidth="4" markerHeight="4"><path d="M0 0L%d 1" marker-%s="url(#%s)"/></marker>`, id(k), k+1, rng.Pick(r, "start", "mid", "end"), next(k))
 		}
 		if mode == "missing" {
-			return refCase{kind, mode, `<svg><rect width="77" height="5"/><path d="M0 0L5 5 9 0" marker-start="url(#nowhere)" marker-mid="url(#nowhere)" marker-end="url(#nowhere)"/></svg>`}
+			return refCase{kind: kind, mode: mode, src: `<svg><rect width="77" height="5"/><path d="M0 0L5 5 9 0" marker-start="url(#nowhere)" marker-mid="url(#nowhere)" marker-end="url(#nowhere)"/></svg>`}
 		}
-		return refCase{kind, mode, `<svg><defs>` + defs.String() + `</defs><rect width="77" height="5"/><path d="M0 0L5 5 9 0" marker-start="url(#r0)"/></svg>`}
+		return refCase{kind: kind, mode: mode, src: `<svg><defs>` + defs.String() + `</defs><rect width="77" height="5"/><path d="M0 0L5 5 9 0" marker-start="url(#r0)"/></svg>`}
 	case "clip-path":
 		for k := 0; k < n; k++ {
 			fmt.Fprintf(&defs, `<clipPath id="%s"><rect width="%d" height="5" clip-path="url(#%s)"/></clipPath>`, id(k), k+3, next(k))
@@ -729,15 +770,24 @@ func genRef(r *rng.R) refCase {
 		}
 		target += `/><use href="#r0"/>`
 	}
+	guarded := kind == "clip-path" || kind == "mask"
 	if mode == "missing" && kind != "use" && r.Bool() {
 		// reference straight to an id that does not exist
 		t := strings.Replace(target, "#r0", "#nowhere", -1)
-		return refCase{kind, mode, `<svg>` + t + `</svg>`}
+		rc := refCase{kind: kind, mode: mode, src: `<svg>` + t + `</svg>`}
+		if guarded {
+			rc.model = guardReq(n, true, kind == "clip-path", true)
+		}
+		return rc
 	}
-	return refCase{kind, mode, `<svg><defs>` + defs.String() + `</defs>` + target + `</svg>`}
+	rc := refCase{kind: kind, mode: mode, src: `<svg><defs>` + defs.String() + `</defs>` + target + `</svg>`}
+	if guarded {
+		rc.model = guardReq(n, mode == "missing", kind == "clip-path", false)
+	}
+	return rc
 }
 
-func runRefs(r *rng.R, n int, out *res.Result) error {
+func runRefs(m *mp.Model, r *rng.R, n int, out *res.Result) error {
 	c, err := startChild()
 	if err != nil {
 		return err
@@ -753,7 +803,7 @@ func runRefs(r *rng.R, n int, out *res.Result) error {
 		// a class that already killed the child is replayed only a few times (each costs a process)
 		cls := rc.kind + ":" + rc.mode
 		if seen[cls] && !cr.P(1, 4) {
-			out.Hit("refs:skipped-known-fatal-class")
+			out.Hit("refs:skipped-fatal-class")
 			continue
 		}
 		ans := c.ask(rc.src)
@@ -775,8 +825,23 @@ func runRefs(r *rng.R, n int, out *res.Result) error {
 			} else {
 				out.Hit("refs:recursive-use-rejects-image")
 			}
-		case ans == "ok 1":
+		case strings.HasPrefix(ans, "ok") && strings.Count(ans+" ", " 77 ") == 1:
 			out.Hit("refs:ignored-ok")
+			if rc.model != nil {
+				ma, err := m.Ask(*rc.model)
+				if err != nil {
+					return err
+				}
+				want := "ok"
+				for _, a := range ma.Xs[1:] {
+					want += " " + a.S
+				}
+				if ma.Head() != "ok" || want != ans {
+					out.Add(res.Finding{Kind: "corr", Op: "corr:guard", Input: rc.src, Impl: ans, Model: ma.String(), Reason: "rectangles drawn under SVGImage.guard differ from WR.C18.drawGuarded", Seed: caseSeed})
+				} else {
+					out.Hit("refs:guard-model-equal")
+				}
+			}
 		default:
 			out.Add(res.Finding{Kind: "judge", Op: "judge:reference", Input: rc.src, Impl: ans, Reason: "the referencing shape itself must still be drawn exactly once", Key: rc.kind + ":" + rc.mode, Seed: caseSeed})
 		}
